@@ -423,3 +423,153 @@ def full_stack_suite(ctx, count, batch=False):
         if ok and any(m['status'] == 0 for m in ms):
             ctx.nontrivial_add(json.dumps(desc, sort_keys=True)[:3000])
     ctx.extra['full_stack_cases' + ('_batch' if batch else '')] = len(keep)
+
+
+# ---- the whole of `_parsing.run` inside the model: Lean rule functions + lazy cache + search -----
+
+def lazy_case(rng, lang, m, with_seen, with_beta):
+    """one call of the real depccg.parsing.run (real rule functions of `lang`, m sentences sharing
+    category table and cache) and the protocol line that makes the Lean model do the same thing
+    *by itself*: its own En / Ja rule functions, its own callbacks, search and finaliser"""
+    import functools
+    import grammar_common
+    from depccg.grammar import en, ja
+    import tree_common as T
+    base, sents, cats, root_cats, bfun, ufun = full_stack_problem(rng, lang, m)
+    variant = lang
+    mod = en if lang == 'en' else ja
+    if with_seen:
+        bfun = functools.partial(mod.apply_binary_rules, seen_rules=grammar_common.seen_set(variant))
+    if with_beta:
+        base.use_beta = True
+        base.beta = rng.choice([0.5, 0.1, 0.001])
+        base.pruning = rng.choice([1, 2, 3, 50])
+    max_length = rng.choice([250, 250, 3])
+    for p, _ in sents:
+        p.use_beta, p.beta, p.pruning = base.use_beta, base.beta, base.pruning
+    pops = pyxrt.trace_pops(True)
+    try:
+        res = native.setup()['parsing'].run([t for _, t in sents], [G.scoring(p) for p, _ in sents], list(cats), list(root_cats),
+                                            bfun, ufun, unary_penalty=base.penalty / S.SCALE, beta=base.beta, use_beta=base.use_beta,
+                                            pruning_size=base.pruning, nbest=base.nbest, max_step=base.max_step, max_length=max_length,
+                                            processes=1, max_chunk_size=1000)
+        real_pops = [(1 if f else 0, S.to_int(i), S.to_int(o), s, l, c, h, rr) for f, i, o, s, l, c, h, rr in pops]
+    finally:
+        pyxrt.trace_pops(False)
+    parts = ['lazyrun', lang, ('ship_' + lang) if with_seen else '-', 'ship_' + lang,
+             str(len(cats))] + [enc_cat(c) for c in cats] + [str(len(root_cats))] + [enc_cat(c) for c in root_cats]
+    parts += [str(base.penalty), str(base.pruning), str(base.nbest), str(base.max_step), str(max_length), str(len(sents))]
+    for p, toks in sents:
+        parts.append(str(p.n))
+        parts += [T.enc_tok(t) for t in toks]
+        for row in p.tags:
+            parts += [str(v) for v in row]
+        for row in p.deps:
+            parts += [str(v) for v in row]
+        if p.use_beta:
+            parts.append('1')
+            for row in S.passes_table(p):
+                parts += [str(v) for v in row]
+        else:
+            parts.append('0')
+    line = ' '.join(' '.join(parts).split())
+    desc = dict(lang=lang, seen=with_seen, sentences=[p.to_json() for p, _ in sents], categories=[str(c) for c in cats],
+                roots=[str(c) for c in root_cats], max_length=max_length)
+    return desc, real_pops, res, line
+
+
+def parse_lazy_output(out):
+    """-> (ncats, [ (kind, pops, [(score, tree_enc)]) ])"""
+    segs = out.split(' || ')
+    head = segs[0].split(' ')
+    assert head[0] == 'ok', out[:200]
+    sents = []
+    for seg in segs[1:]:
+        items = seg.split(' ; ')
+        kind = items[0].split(' ')[0]
+        pops, results = [], []
+        for it in items[1:]:
+            ts = it.split(' ')
+            if ts[0] == 'P':
+                pops.append(tuple(int(v) for v in ts[1:]))
+            elif ts[0] == 'R':
+                results.append((int(ts[1]), ' '.join(ts[2:])))
+        sents.append((kind, pops, results))
+    return int(head[1]), sents
+
+
+def lazy_suite(ctx, count, batch=False):
+    """real `depccg.parsing.run` (real rule functions, real callbacks, real C++ search, real
+    `retrieve_tree`) against `Lazy.runBatch` — the model of the whole call — on the same sentences:
+    pop traces with category ids, status, scores and the returned trees (categories, labels, head
+    flags, tokens) must be identical."""
+    import grammar_common
+    import tree_common as T
+    from driver import run_lines
+    rng = ctx.rng
+    if not ensure_native(ctx):
+        return
+    if ctx.lean is not None and not ctx.lean.driver_ok:
+        return
+    setup = []
+    for lang in ('en', 'ja'):
+        setup.append(grammar_common.set_seen_line('ship_' + lang, sorted(grammar_common.seen_set(lang), key=lambda p: (str(p[0]), str(p[1])))))
+        setup.append(grammar_common.set_unary_line('ship_' + lang, grammar_common.unary_table(lang)))
+    cases = []
+    tries = 0
+    while len(cases) < count and tries < 3 * count:
+        tries += 1
+        try:
+            c = lazy_case(rng, 'ja' if tries % 3 == 0 else 'en', rng.randint(2, 4) if batch else 1,
+                          with_seen=(tries % 4 == 1), with_beta=(tries % 5 == 2))
+        except Exception as e:
+            ctx.fail(f'depccg.parsing.run raised {type(e).__name__}: {e}', {'suite': 'lazy'},
+                     fingerprint=['lazy-raise', type(e).__name__])
+            continue
+        if len(c[1]) <= 4000:
+            cases.append(c)
+    outs = run_lines(setup + [c[3] for c in cases])[len(setup):]
+    parsed = 0
+    for (desc, real_pops, res, line), out in zip(cases, outs):
+        ctx.evaluations += 1
+        ctx.traces += 1
+        if not out.startswith('ok'):
+            ctx.disagree('lazyrun', desc, out[:200], 'a result list', line=line[:3000])
+            continue
+        _, msents = parse_lazy_output(out)
+        mpops = [q for _, pops, _ in msents for q in pops]
+        if mpops != list(real_pops):
+            k = 0
+            while k < min(len(mpops), len(real_pops)) and mpops[k] == real_pops[k]:
+                k += 1
+            ctx.disagree('lazyrun', desc, f"pop {k}: {mpops[k] if k < len(mpops) else None}",
+                         f"pop {k}: {real_pops[k] if k < len(real_pops) else None}",
+                         note='pop traces of the whole call differ (model: Lean rule functions + lazy cache + search)',
+                         line=line[:3000])
+            continue
+        if len(msents) != len(res):
+            ctx.disagree('lazyrun', desc, f'{len(msents)} results', f'{len(res)} results')
+            continue
+        ok = True
+        for (kind, _, mres), trees in zip(msents, res):
+            failed = len(trees) == 1 and trees[0].score == -float('inf')
+            if (kind == 'F') != failed or kind == 'E':
+                ctx.disagree('lazyrun', desc, kind, 'failed' if failed else 'parsed')
+                ok = False
+                break
+            if failed:
+                continue
+            got = [(S.to_int(t.score), T.enc_tree(t.tree)) for t in trees]
+            if got != mres:
+                k = 0
+                while k < min(len(got), len(mres)) and got[k] == mres[k]:
+                    k += 1
+                ctx.disagree('lazyrun', desc, str(mres[k] if k < len(mres) else None)[:600], str(got[k] if k < len(got) else None)[:600],
+                             note=f'returned tree / score {k} differs')
+                ok = False
+                break
+            parsed += 1
+        if ok and any(k == 'T' for k, _, _ in msents):
+            ctx.nontrivial_add(json.dumps(desc, sort_keys=True)[:3000])
+    ctx.extra['lazy_cases' + ('_batch' if batch else '')] = len(cases)
+    ctx.extra['lazy_parsed_sentences' + ('_batch' if batch else '')] = parsed
